@@ -39,6 +39,7 @@ def run(rep, F, ctx):
         rep.add('ENV-TABLE', 'envtable:%s:literals' % short, '%s mentions exactly the literals %s' % (short, spec['literals']), ok_l, '%s:%d' % (B.file, B.line),
                 '' if ok_l else '%s uses the literals %s; the specification says %s (wrong variable or default?)' % (short, lits, sorted(spec['literals'])))
         have = {_inl.subst(skey_call(HB, t), amap) for HB, amap, _p in bodies for i, t in HB.calls()}
+        have |= {'from(' + h[5:] for h in have if h.startswith('into(')}          # x.into() with a PathBuf target is PathBuf::from(x)
         miss = [c for c in spec['calls'] if c not in have]
         rep.add('ENV-TABLE', 'envtable:%s:calls' % short, '%s reads %s and builds its fallback as documented' % (short, spec['var']), not miss, '%s:%d' % (B.file, B.line),
                 '' if not miss else '%s lacks the documented step(s) %s' % (short, miss))
@@ -60,6 +61,8 @@ def run(rep, F, ctx):
             for HB, amap, _p in bodies:
                 for i, t in sorted(HB.calls()):
                     k = _inl.subst(skey_call(HB, t), amap)
+                    if k.startswith("into('/"):
+                        k = 'from' + k[4:]
                     if k.startswith("from('/"):
                         order.append(k[6:-2])
             ok_o = order == spec['defaults_in_order']
